@@ -7,6 +7,8 @@
 -/
 import TdVerif.Model.C19Vmap
 import TdVerif.Lemmas.C19Vmap
+import TdVerif.Model.C19Lazy
+import TdVerif.Lemmas.C19Lazy
 
 namespace TdVerif.Props.C19
 open TdVerif.C19
@@ -87,6 +89,46 @@ theorem vmap_td_eq_loop (p : List TOp) (i o level : Nat) (td : TD) (hsz : 0 < td
   rw [hR]
   show (⟨(vmapTD p i o level td).batch, (vmapTD p i o level td).names, (vmapTD p i o level td).leaves⟩ : TD) = _
   rw [hbk.1, hbk.2, h3]
+
+/-! ## 2b. several arguments, `None` in_dims -/
+
+theorem addBDOpt_sampleTD (i : Option Nat) (size level : Nat) (td : TD) (k : Nat) :
+    (addBDOpt i size level td).sampleTD k = selOpt td i k := by
+  cases i <;> rfl
+
+/-- **two arguments, each vmapped along its own dimension or not at all (`None`)**: the code path equals
+the stack over `k` of the function applied to slice `k` of the vmapped arguments and to the un-vmapped
+argument itself; `size` is the common vmap size -/
+theorem vmap2_eq_loop (op : TOp2) (p : List TOp) (i1 i2 : Option Nat) (o size level : Nat) (a b : TD)
+    (hsz : 0 < size) (h1 : (addBDOpt i1 size level a).size = size) :
+    vmapTD2 op p i1 i2 o size level a b
+      = stackTD ((List.range size).map (fun k => runProg p (op.run (selOpt a i1 k) (selOpt b i2 k)))) o := by
+  let B0 : BTD := op.runB (addBDOpt i1 size level a) (addBDOpt i2 size level b)
+  have hB0 : ∀ k, B0.sampleTD k = op.run (selOpt a i1 k) (selOpt b i2 k) := by
+    intro k
+    have ha := addBDOpt_sampleTD i1 size level a k
+    have hb := addBDOpt_sampleTD i2 size level b k
+    simp only [BTD.sampleTD] at ha hb
+    show (⟨_, _, _⟩ : TD) = _
+    simp only [TOp2.run, ← ha, ← hb]
+    rfl
+  have hsize : (runProgB p B0).size = size := by rw [runProgB_size]; exact h1
+  have hs : ∀ k, (runProgB p B0).sampleTD k = runProg p (op.run (selOpt a i1 k) (selOpt b i2 k)) := by
+    intro k; rw [runProgB_sampleTD, hB0]
+  have hlist : (List.range size).map (runProgB p B0).sample
+      = ((List.range size).map (fun k => runProg p (op.run (selOpt a i1 k) (selOpt b i2 k)))).map (·.leaves) := by
+    simp only [List.map_map]
+    apply List.map_congr_left
+    intro k _
+    exact congrArg TD.leaves (hs k)
+  have hhead : ((List.range size).map (fun k => runProg p (op.run (selOpt a i1 k) (selOpt b i2 k)))).headD ⟨[], [], []⟩
+      = runProg p (op.run (selOpt a i1 0) (selOpt b i2 0)) := headD_map_range _ _ _ hsz
+  have hb0 : (runProgB p B0).batch = (runProg p (op.run (selOpt a i1 0) (selOpt b i2 0))).batch := congrArg TD.batch (hs 0)
+  have hn0 : (runProgB p B0).names = (runProg p (op.run (selOpt a i1 0) (selOpt b i2 0))).names := congrArg TD.names (hs 0)
+  show removeBD o (runProgB p B0) = _
+  unfold removeBD stackTD
+  rw [hhead, hsize, hlist, hb0, hn0]
+  simp
 
 /-! ## 3. coherence of the result -/
 
@@ -218,6 +260,66 @@ current content, is the batched view of the current content -/
 theorem memo_sees_current_values (m : Memo) (i level : Nat) (h : MemoOK m) (tdNow : TD) :
     ((addBDMemo m i level).2).resolve tdNow = addBD i level tdNow := by
   rw [(memo_keyed_by_dim_and_level m i level h).1]; rfl
+
+/-! ## 6b. lazily stacked tensordicts -/
+
+/-- **Bookkeeping for a lazy stack** (identity function): whatever the relative position of `in_dim`,
+`stack_dim` and `out_dim` — hidden-stack path when `in_dim = stack_dim`, member-wise path with the
+`stack_dim ± 1` / `out_dim - 1` re-indexing otherwise — the tensordict the result stands for has the
+batch size of the dense stack with entry `in_dim` moved to `out_dim`. -/
+theorem lazy_bd_bookkeeping (m : TD) (rest : List TD) (sd i o level : Nat)
+    (hsd : sd ≤ m.batch.length) (hi : i ≤ m.batch.length) (ho : o ≤ m.batch.length) :
+    (vmapLazy [] i o level ⟨sd, m :: rest⟩).dense.batch
+      = ((LTD.dense ⟨sd, m :: rest⟩).batch.eraseIdx i).insertIdx o ((LTD.dense ⟨sd, m :: rest⟩).batch.getD i 0) := by
+  have hd : (LTD.dense ⟨sd, m :: rest⟩).batch = m.batch.insertIdx sd (rest.length + 1) := by
+    simp [LTD.dense, stackTD]
+  rw [hd]
+  by_cases h1 : i = sd
+  · subst h1
+    simp only [vmapLazy, BLTD.deriveProg, List.foldl_nil, addBDLazy, if_true, removeBDLazy, LTD.dense, stackTD,
+      List.headD_cons, List.length_cons, List.eraseIdx_insertIdx_self, getD_insertIdx_self _ _ _ _ hsd]
+  · by_cases h2 : i < sd
+    · have he := eraseIdx_insertIdx_lt m.batch sd i (rest.length + 1) h2 hsd
+      have hg := getD_insertIdx_lt m.batch sd i (rest.length + 1) 0 h2
+      rw [he, hg]
+      have key := insert_two (m.batch.eraseIdx i) (sd - 1) o (rest.length + 1) (m.batch.getD i 0)
+        (by rw [List.length_eraseIdx]; split <;> omega) (by rw [List.length_eraseIdx]; split <;> omega)
+      rw [← key]
+      simp only [vmapLazy, BLTD.deriveProg, List.foldl_nil, addBDLazy, h1, if_false, h2, if_true, removeBDLazy]
+      have hs : sd - 1 + 1 = sd := by omega
+      split <;> simp [LTD.dense, stackTD, removeBD, addBD, hs]
+    · have h3 : sd < i := by omega
+      have he := eraseIdx_insertIdx_gt m.batch sd i (rest.length + 1) h3 hi
+      have hg := getD_insertIdx_gt m.batch sd i (rest.length + 1) 0 h3 hsd
+      rw [he, hg]
+      have key := insert_two (m.batch.eraseIdx (i - 1)) sd o (rest.length + 1) (m.batch.getD (i - 1) 0)
+        (by rw [List.length_eraseIdx]; split <;> omega) (by rw [List.length_eraseIdx]; split <;> omega)
+      rw [← key]
+      simp only [vmapLazy, BLTD.deriveProg, List.foldl_nil, addBDLazy, h1, if_false, h2, removeBDLazy]
+      split <;> simp [LTD.dense, stackTD, removeBD, addBD]
+
+/-- **Leaves of a batched lazy stack are the slices of the dense stack**: what sample `k` of the batched
+stack holds for a leaf — member `k` itself when `in_dim = stack_dim` (hidden-stack path), the stack at
+`stack_dim - 1` of the members' slices at `in_dim` when `in_dim < stack_dim`, the stack at `stack_dim` of the
+members' slices at `in_dim - 1` when `in_dim > stack_dim` — is slice `k` along `in_dim` of the stacked leaf. -/
+theorem lazy_leaf_slices (ts : List T) (sd i k : Nat) (hne : 0 < ts.length)
+    (hshape : ∀ t ∈ ts, t.shape = (ts.headD default).shape)
+    (hsd : sd ≤ (ts.headD default).shape.length) (hi : i ≤ (ts.headD default).shape.length) :
+    (i = sd → k < ts.length → (select (stack ts sd) i k).Eqv (ts.getD k default)) ∧
+    (i < sd → (select (stack ts sd) i k).Eqv (stack (ts.map (fun t => select t i k)) (sd - 1))) ∧
+    (sd < i → (select (stack ts sd) i k).Eqv (stack (ts.map (fun t => select t (i - 1) k)) sd)) :=
+  ⟨fun h hk => h ▸ select_stack_same ts sd k hk hsd hshape,
+   fun h => select_stack_lt ts sd i k hne h hsd,
+   fun h => select_stack_gt ts sd i k hne h hi⟩
+
+/-- what the hidden-stack path does to a function that *derives* a new stack (the known finding
+C19-lazy-stackdim-derived): vmap along the stack dimension of a stack of two tensordicts of batch []
+with `f = td.apply(...)` returns batch size [2, 2] where the per-sample loop gives [2] -/
+theorem lazy_stackdim_derived_counterexample :
+    (vmapLazy [⟨id, fun _ n => n, fun _ l => l⟩] 0 0 1 ⟨0, [⟨[], [], [("a", arangeT 0 [])]⟩, ⟨[], [], [("a", arangeT 7 [])]⟩]⟩).dense.batch = [2, 2] ∧
+    (stackTD ((unbindTD (LTD.dense ⟨0, [⟨[], [], [("a", arangeT 0 [])]⟩, ⟨[], [], [("a", arangeT 7 [])]⟩]⟩) 0).map
+      (runProg [⟨id, fun _ n => n, fun _ l => l⟩])) 0).batch = [2] := by
+  decide
 
 /-! ## 7. non-vacuity -/
 
